@@ -2,6 +2,7 @@ import Casm.Proofs.IterModel
 import Casm.Proofs.AssembleLemmas
 import Casm.Proofs.StableId
 import Casm.Proofs.KindInv
+import Casm.Proofs.FrontOKb
 import Casm.Props.C01
 /-!
 # C02 — a successful result is a genuine fixed point, never a stale guess
@@ -33,6 +34,19 @@ implementation's own final state).
   the node's own kind; declarations are append-only and keep their kind; `#if` splicing adds only
   reference-free nodes).  With budget 1 the only pass is the first one and the statement is
   `success_is_confirmed`.
+* `success_recomputes_everything` — **the statement in full for the optimised assembler**: the
+  fixed point above is that of the pass as the code runs it, which *skips* the items the static
+  optimisation froze in the first pass.  With every mark cleared (`Defs.unfreeze`) the final
+  state is still a fixed point: every frozen instruction recomputes, from the final values at its
+  final address, to the frozen encoding, every frozen data element to its frozen bits.  Proof
+  (`Casm/Proofs/{StaticEval,StaticMatch,ViewCongr,Unfreeze,Recompute,History,Frozen,FullFix}`):
+  the analysis is sound (C08), evaluation reads a state only through its values, every resolver
+  commutes with clearing the marks, and an invariant of all passes (`Good`) keeps, for each mark,
+  the state and context in which the item was frozen, related to the current state so that the
+  soundness theorem applies (statically known symbols with a value are marked resolved and never
+  change).  Hypothesis `frontOKb`: decidable facts about the front end's output, evaluated by
+  every certificate run.  Findings F30–F34 (stale frozen encodings) are the counterexamples the
+  proof obligations produced while this theorem was being stated.
 -/
 namespace Casm.C02
 
@@ -199,6 +213,65 @@ theorem success_is_fixed_point (opts : Opts) (fs : SrcFiles) (roots : List (List
                 injection h with h
                 subst h
                 exact ⟨⟨bst, hbuild, rfl, rfl⟩, rfl⟩
+
+/-- the state with every first-pass mark cleared is a fixed point of the strict pass: recomputing
+    **every** item — also those the static optimisation froze in the first pass — from the final
+    values reproduces the state from which the output is read -/
+def FullFixedPoint (st : Static) (nodes : List AstNode) (d : Defs) : Prop :=
+  resolveOnce st nodes false true d.unfreeze = .ok (d.unfreeze, true, [])
+
+/-- **C02, the statement in full for the optimised assembler.**  Whenever assembly succeeds with
+    the static optimisation on and a budget of at least two passes, recomputing every instruction,
+    data element, label and constant from the final state — nothing skipped — is stable, silent and
+    reproduces that state.  `frontOKb` is a decision procedure for nine facts about the front
+    end's output (nothing marked yet, item references pairwise distinct, the `known` flags mean
+    what the analysis computed in the node's symbol context, no label is flagged, a flagged symbol
+    with a value is marked, no rule parameter is named like an inclusion function); it is
+    evaluated by the certificate of every correspondence run (never false). -/
+theorem success_recomputes_everything (opts : Opts) (fs : SrcFiles) (roots : List (List Char)) (res : AsmOk)
+    (hb : 2 ≤ opts.maxIter) (ho : opts.optStatic = true) (h : assemble opts fs roots = .ok res) :
+    ∃ st nodes defs0 d, frontEnd opts fs roots = .ok (st, nodes, defs0) ∧ ReadFrom st nodes d res ∧
+      (frontOKb st nodes defs0 = true → FullFixedPoint st nodes d) := by
+  obtain ⟨st, nodes, defs0, d, hf, _, hread⟩ := success_is_fixed_point opts fs roots res hb h
+  have hst : st.opts = opts := (frontEnd_opts opts fs roots st nodes defs0 hf).1
+  -- the same final state `d`: re-derive it from the iteration
+  unfold assemble at h
+  rw [hf] at h
+  simp only at h
+  cases hr : resolveIteratively st nodes defs0 with
+  | error e => rw [hr] at h; cases h
+  | ok y =>
+    obtain ⟨iters, d', rep⟩ := y
+    rw [hr] at h
+    simp only at h
+    cases rep with
+    | cons a t => simp at h
+    | nil =>
+      have hread' : ReadFrom st nodes d' res := by
+        simp only [List.isEmpty_nil, Bool.not_true, Bool.false_eq_true, if_false] at h
+        split at h
+        · cases h
+        · split at h
+          · cases h
+          · split at h
+            · cases h
+            · rename_i bst hbuild
+              injection h with h
+              subst h
+              exact ⟨⟨bst, hbuild, rfl, rfl⟩, rfl⟩
+      refine ⟨st, nodes, defs0, d', hf, hread', fun hfo => ?_⟩
+      have hwf : NoClash nodes := frontEnd_noClash opts fs roots st nodes defs0 hf
+      have ho' : st.opts.optStatic = true := by rw [hst]; exact ho
+      have f := frontOKb_sound st nodes defs0 ho' hfo
+      unfold resolveIteratively at hr
+      obtain ⟨r, pre, hfix, hrep⟩ := resolveIterativelyN_full_fixed_point st nodes defs0 f st.opts.maxIter
+        (by rw [hst]; exact hb) ho' hwf iters d' [] hr
+      have : r = [] := by
+        cases pre with
+        | nil => simpa using hrep.symm
+        | cons a t => simp at hrep
+      rw [this] at hfix
+      exact hfix
 
 /-- **In a fixed point every item recomputes to itself**: each node of the program, at its own
     position, is resolved on the final state `d` and returns `d`, stable. -/
